@@ -211,18 +211,20 @@ impl<Db: Database> StorageManager<Db> {
             ))),
         }?;
 
+        // Write to the database first: the cache must never hold a record the database
+        // rejected (the cached epoch record in particular never expires)
+        self.tic_toc(
+            METRIC_WRITE_TIME,
+            self.db
+                .batch_set(records.clone(), DbSetState::TransactionCommit),
+        )
+        .await?;
+        self.increment_metric(METRIC_BATCH_SET);
+
         // update the cache
         if let Some(cache) = &self.cache {
             cache.batch_put(&records).await;
         }
-
-        // Write to the database
-        self.tic_toc(
-            METRIC_WRITE_TIME,
-            self.db.batch_set(records, DbSetState::TransactionCommit),
-        )
-        .await?;
-        self.increment_metric(METRIC_BATCH_SET);
         Ok(num_records as u64)
     }
 
@@ -264,14 +266,15 @@ impl<Db: Database> StorageManager<Db> {
             return Ok(());
         }
 
+        // write to the database first, so that a rejected write never reaches the cache
+        self.tic_toc(METRIC_WRITE_TIME, self.db.set(record.clone()))
+            .await?;
+        self.increment_metric(METRIC_SET);
+
         // update the cache
         if let Some(cache) = &self.cache {
             cache.put(&record).await;
         }
-
-        // write to the database
-        self.tic_toc(METRIC_WRITE_TIME, self.db.set(record)).await?;
-        self.increment_metric(METRIC_SET);
         Ok(())
     }
 
@@ -288,18 +291,18 @@ impl<Db: Database> StorageManager<Db> {
             return Ok(());
         }
 
+        // Write to the database first, so that a rejected write never reaches the cache
+        self.tic_toc(
+            METRIC_WRITE_TIME,
+            self.db.batch_set(records.clone(), DbSetState::General),
+        )
+        .await?;
+        self.increment_metric(METRIC_BATCH_SET);
+
         // update the cache
         if let Some(cache) = &self.cache {
             cache.batch_put(&records).await;
         }
-
-        // Write to the database
-        self.tic_toc(
-            METRIC_WRITE_TIME,
-            self.db.batch_set(records, DbSetState::General),
-        )
-        .await?;
-        self.increment_metric(METRIC_BATCH_SET);
         Ok(())
     }
 
